@@ -439,8 +439,8 @@ func c09GenTraceD(out *emit.Out, r *rand.Rand, thorough bool) {
 		k11 := one(hs(zeros(16000)), c09DRec{Typ: 22, Other: true})
 		add("k11-chain-2", target, "p0", []c09DEv{one(hs(append(lit(hdrD(0xEE, 60000, 0, 0, 60000)...), zeros(15000)...)), c09DRec{Typ: 22, Other: true}), k11})
 		add("k11-chain-8", target, "p0", append([]c09DEv{one(hs(append(lit(hdrD(0xEE, 60000, 0, 0, 60000)...), zeros(15000)...)), c09DRec{Typ: 22, Other: true})}, repD(k11, 7)...))
-		// K15: the same with a warning alert at the end of every datagram: retryReadRecord re-enters
-		// readRecordOrCCS, whose new frame takes the grown handBuf as its handLenAtEntry
+		// K15 (fixed bfc7028): the same with a warning alert at the end of every datagram: retryReadRecord
+		// re-entered readRecordOrCCS, whose new frame took the grown handBuf as its handLenAtEntry
 		k15 := one(hs(zeros(16000)), c09DRec{Typ: 22, Other: true}, warn)
 		add("k15-chain-8", target, "p0", append([]c09DEv{one(hs(append(lit(hdrD(0xEE, 60000, 0, 0, 60000)...), zeros(15000)...)), c09DRec{Typ: 22, Other: true}, warn)}, repD(k15, 7)...))
 		add("k15-retry-3", target, "p0", repD(one(hs(zeros(1)), c09DRec{Typ: 22, Other: true}, warn), 3))
@@ -480,7 +480,7 @@ func c09GenTraceD(out *emit.Out, r *rand.Rand, thorough bool) {
 		add("replayed-app", target, "p4", []c09DEv{one(c09DRec{Typ: 23, P: zeros(5)}), one(c09DRec{Typ: 23, Replay: 1, P: zeros(5)}), one(c09DRec{Typ: 23, P: zeros(6)})})
 		add("bad-mac", target, "p4", []c09DEv{one(c09DRec{Typ: 23, P: zeros(5)}), one(c09DRec{Typ: 23, Bad: true})})
 		add("k10-foreign-5", target, "p4", append(repD(c09DEv{K: "foreign"}, 5), one(c09DRec{Typ: 23, P: zeros(5)})))
-		// K15 after completion: a handshake record (dropped, but it resets retryCount) and a warning alert per datagram
+		// K15 (fixed bfc7028) after completion: a handshake record (dropped, but it resets retryCount) and a warning alert per datagram
 		add("k15-retry-40", target, "p4", repD(one(hs(zeros(1)), warn), 40))
 		add("warnings-after-hs-record", target, "p4", append(repD(one(hs(zeros(1)), warn), 2), one(c09DRec{Typ: 23, P: zeros(5)})))
 	}
